@@ -977,6 +977,10 @@ class WashoutOrLag(Washout):
                            cache=True,
                            z0=1, z1=0)
 
+        # the initial value of `y` depends on the flags of `LT`
+        if zero_out:
+            self.y.discrete = self.LT
+
         self.vars.update({'LT': self.LT})
 
     def define(self):
